@@ -371,6 +371,10 @@ func runC13(r *vk.Run) {
 		rng := c.Rng
 		n := rng.Range(2, 4)
 		vals := append([]float64(nil), vk.Pick(rng, tuples)[:n]...)
+		if rng.Chance(1, 4) {
+			// 10 next to ^ and a number is a base and an exponent like any other (10 ^ 2 ^ x is 10 ^ (2 ^ x))
+			vals = append([]float64(nil), vk.Pick(rng, [][]float64{{10, 2, 3, 5}, {3, 10, 2, 10}, {10, 10, 2, 3}, {2, 10, 3, 7}})[:n]...)
+		}
 		vk.Shuffle(rng, vals)
 		isLit := make([]bool, n)
 		nvec := 0
@@ -391,6 +395,15 @@ func runC13(r *vk.Run) {
 		paren := -1
 		if n >= 3 && rng.Bool() {
 			paren = rng.Intn(n - 1)
+		}
+		if n >= 3 && rng.Chance(1, 8) {
+			// a power tower that starts with two number literals, the first often 10: 10 ^ 2 ^ x
+			at := rng.Intn(n - 2)
+			vals[at], vals[at+1] = vk.Pick(rng, []float64{10, 10, 2, 100}), vk.Pick(rng, []float64{2, 3, 10})
+			isLit[at], isLit[at+1], isLit[at+2] = true, true, false
+			ops[at], ops[at+1] = "^", "^"
+			paren = -1
+			c.Count("literal_power_towers", 1)
 		}
 		operand := func(i int) string {
 			if isLit[i] {
